@@ -140,6 +140,37 @@ def a_matrix_model(prog):
                         elif tags == ["none"] and funeval.ev_value(prog, sy, v, {}) == 0.0:
                             ok, dflt, g = True, 0.0, gc
                         ats = [a_ for a_ in ats if not (a_[0] in ("some", "none") and a_[1] == gname)]
+                if not ok:
+                    # `if idx < TABLE.len() { TABLE[idx] } else { 0.0 }`: the same bounds-checked lookup with a default
+                    from ..guards import as_cmp as _as_cmp, truth_of as _truth_of
+                    for (s_, t_) in path[0]:
+                        d_, rel_, vals_ = an.edge_atom(s_, t_)
+                        tr_ = _truth_of(rel_, vals_)
+                        c_ = _as_cmp(strip(d_), True) if tr_ is not None else None
+                        if c_ is None:
+                            continue
+                        op_, a_, b_ = c_[0], strip(c_[1]), strip(c_[2])
+                        if op_ in ("Gt", "Ge"):
+                            op_, a_, b_ = {"Gt": "Lt", "Ge": "Le"}[op_], b_, a_
+                        if op_ == "Lt" and b_[0] == "call" and short(b_[1]) in ("<impl [T]>::len", "<impl [T; N]>::len") and len(b_[2]) == 1:
+                            tbl_ = strip(b_[2][0])
+                            while tbl_[0] == "cast" and "Unsize" in str(tbl_[1]):
+                                tbl_ = strip(tbl_[2])
+                            vv = v
+                            while vv[0] in ("ref", "deref"):
+                                vv = vv[1]
+                            in_range = tr_
+                            if in_range and ((vv[0] == "index" and strip(vv[1]) == tbl_ and strip(vv[2]) == a_) or
+                                             (vv[0] == "call" and short(vv[1]) == "Index::index" and strip(vv[2][0]) == tbl_ and strip(vv[2][1]) == a_)):
+                                ok, dflt = True, 0.0
+                                g = ("call", "core::slice::<impl [T]>::get", (tbl_, a_), -1)
+                            elif not in_range and funeval.ev_value(prog, sy, v, {}) == 0.0:
+                                ok, dflt = True, 0.0
+                                g = ("call", "core::slice::<impl [T]>::get", (tbl_, a_), -1)
+                            if ok:
+                                key_ = str(sy.atoms(d_, rel_, vals_))
+                                ats = [x_ for x_ in ats if str([x_]) != key_ and str(x_) not in key_]
+                                break
                 if not (ok and dflt == 0.0 and g[0] == "call" and short(g[1]) == "<impl [T]>::get" and len(g[2]) == 2):
                     return None, sy, "the element is not `TABLE.get(index).copied().unwrap_or(0.0)`: %s" % sy.name(defs[0])[:160]
                 idx = sy.poly(g[2][1])
@@ -545,6 +576,24 @@ def run(prog, tier, res):
             if d0[0] == "field" and rel == "in" and "<impl [T]>::last" in txt and d0[2] == 1:
                 last_ok = sorted(vals) == [WIRES]
                 continue
+            if c is not None and tr is not None and c[0] in ("Eq", "Ne") and (c[0] == "Eq") == tr:
+                # the same tests by index: `ranges[0].0 == 0`, `ranges[ranges.len() - 1].1 == 256`
+                for x_, y_ in ((strip(c[1]), strip(c[2])), (strip(c[2]), strip(c[1]))):
+                    if y_[0] == "const" and x_[0] == "field" and x_[2] in (0, 1):
+                        ix_ = strip(x_[1])
+                        if ix_[0] == "call" and short(ix_[1]) == "Index::index" and len(ix_[2]) == 2 and "Vec" in str(ix_[2][0])[:400]:
+                            i_ = strip(ix_[2][1])
+                            is0 = i_[0] == "const" and i_[1] == 0
+                            isl = i_[0] == "bin" and i_[1] == "Sub" and strip(i_[3])[0] == "const" and strip(i_[3])[1] == 1 and \
+                                strip(i_[2])[0] == "call" and short(strip(i_[2])[1]) in ("Vec::<T, A>::len", "<impl [T]>::len")
+                            if is0 and x_[2] == 0:
+                                first_ok = y_[1] == 0
+                                c = None
+                            elif isl and x_[2] == 1:
+                                last_ok = y_[1] == WIRES
+                                c = None
+                if c is None:
+                    continue
             if d0[0] == "discr" or (d0[0] == "bin" and any(x[0] == "var" for x in walk(d0))):
                 continue        # Some(..) tests of first()/last(), the scan loop's exit condition
             if d0[0] == "var" and bc.locals[d0[1]]["ty"].get("k") == "bool":
